@@ -122,7 +122,9 @@ impl Part for C14 {
             // the public half of another key pair
             k.pk_s = keys(c.suite.kem, c.tag + 77, cfg.seed).pk_s;
         }
-        let m = if c.empty_bundle { mode_spec(c.mode, &k, b"", b"") } else { mode_spec(c.mode, &k, &bytes(Fill::Mix, 32, 11, cfg.seed), &bytes(Fill::Mix, 22, 12, cfg.seed)) };
+        // (PSK lengths rotate through short and long values: nothing in the single-shot forms may depend on them)
+        let psk_len = [32usize, 1, 16, 31, 33, 100][(c.tag % 6) as usize];
+        let m = if c.empty_bundle { mode_spec(c.mode, &k, b"", b"") } else { mode_spec(c.mode, &k, &bytes(Fill::Mix, psk_len, 11, cfg.seed), &bytes(Fill::Mix, 22, 12, cfg.seed)) };
         let pt = bytes(Fill::Mix, c.pt_len, 140, cfg.seed);
         let aad = bytes(Fill::Mix, c.aad_len, 141, cfg.seed);
         let nt = c.suite.aead.nt();
@@ -311,6 +313,20 @@ fn sequence_case(out: &mut CaseOut, c: &Case, ops: &dyn crate::suites::SuiteOps,
         let pt = vec![i as u8 + 1; pl];
         let aad = vec![0xa0 + i as u8; i % 3];
         let ct = refctx.seal(&aad, &pt).unwrap();
+        // before every second genuine message each receiver is handed a corrupted copy through ITS form: both forms must
+        // reject it and be exactly where they were
+        if i % 2 == 1 {
+            let mut bad = ct.clone();
+            let l = bad.len();
+            bad[l - 1] ^= 0x20;
+            let ja = ra.open(&bad, &aad).map(|_| ());
+            let mut jb_buf = bad[..l - nt].to_vec();
+            let jb = rb.open_ip(&mut jb_buf, &aad, &bad[l - nt..]);
+            out.transitions += 2;
+            if ja != Obs::Err(HpkeError::OpenError) || jb != Obs::Err(HpkeError::OpenError) {
+                out.fail(format!("corrupted copy of message #{}: open() gives {}, open_in_place_detached() gives {}, both should be Err(OpenError)", i, ja.class(), jb.class()));
+            }
+        }
         let a = ra.open(&ct, &aad);
         let (body, tag) = ct.split_at(ct.len() - nt);
         let mut buf = body.to_vec();
